@@ -12,6 +12,7 @@ package main
 import (
 	"encoding/json"
 	"fmt"
+	NoKV "github.com/feichai0017/NoKV"
 	"math"
 	"os"
 	"strings"
@@ -65,8 +66,13 @@ func configs(r *vr.Run) []config {
 	repeat := []string{"vset:d:a:2:s", "vdel:d:a:2", "vset:d:a:2:b", "vset:d:a:3:s", "vset:d:a:1:b"}
 	// monotone-or-equal versions only (what MVCC writers produce), second key sharing tables
 	mono := []string{"vset:d:a:2:s", "vdel:d:a:2", "vset:d:a:3:s", "vdel:d:a:3", "vset:d:ab:2:s", "vset:w:a:2:s"}
+	// tiny output tables: a compaction has to cut its output after one or two entries, i.e.
+	// possibly between two versions of one user key
+	tiny := dbh.Config{Engine: "skiplist", Buckets: 1, VlogFileSize: 120, ValueThreshold: 1 << 20, Tweak: func(o *NoKV.Options) { o.SSTableMaxSz = 8 << 10 }}
+	ascending := []string{"vset:d:a:1:n9000", "vset:d:a:2:n9000", "vset:d:a:3:n9000", "vset:d:ab:2:n9000"} // inline values larger than one 8 KiB block
 	if r.Quick() {
 		return []config{
+			{"tiny-sst-macro", tiny, ascending, 4, 4, 8, false, false, true, false},
 			{"allvers-skiplist", skip, allvers, 3, 2, 5, false, false, false, false},
 			{"allvers-art", art, allvers, 2, 3, 5, false, false, false, false},
 			{"repeat-gc-reopen", skip, repeat[:4], 3, 3, 6, true, true, false, false},
@@ -74,6 +80,7 @@ func configs(r *vr.Run) []config {
 		}
 	}
 	return []config{
+		{"tiny-sst-macro", tiny, append(ascending, "vdel:d:a:2"), 5, 6, 11, false, true, true, false},
 		{"allvers-skiplist", skip, allvers, 4, 3, 7, false, true, false, false},
 		{"allvers-art", art, allvers, 3, 4, 7, false, true, false, false},
 		{"repeat-gc-reopen", skip, repeat, 4, 5, 9, true, true, false, false},
